@@ -225,13 +225,24 @@ t8 :- retractall(r(_,_)), assertz(r(a,1)), assertz(r(b,7)), assertz(r(a,2)), ass
       findall(X, (r(a,X), ( X =:= 1 -> retract(r(a,2)), ( aux(_) -> true ; true ) ; true )), L), show(L).
 t9 :- retractall(q(_)), assertz(q(1)), assertz(q(2)),
       findall(X, (q(X), ( X =:= 1 -> assertz(q(3)), ( q(_) -> true ; true ) ; true )), L), show(L).
+% two indexed blocks of constants separated by a clause with a variable first argument; the call
+% has an unbound argument and the update lands in the block the call has not reached yet
+:- dynamic(s/1).
+blocks :- retractall(s(_)), assertz(s(a)), assertz(s(b)), assertz((s(V) :- V = v)), assertz(s(c)), assertz(s(d)).
+t10 :- blocks, findall(Y, (s(Y), ( Y == a -> assertz(s(e)) ; true )), L1), findall(Y, s(Y), L2), show(L1-L2).
+t11 :- blocks, findall(Y, (s(Y), ( Y == c -> assertz(s(f)) ; true )), L1), findall(Y, s(Y), L2), show(L1-L2).
+t12 :- blocks, findall(Y, (s(Y), ( Y == a -> retract(s(d)) ; true )), L1), findall(Y, s(Y), L2), show(L1-L2).
+t13 :- blocks, findall(Y, (s(Y), ( Y == b -> asserta(s(z)), assertz(s(y)) ; true )), L1), findall(Y, s(Y), L2),
+       show(L1-L2).
 """
 
 
 def replay_logical_update_view(viol):
     cases = [("t1", "[1,2,3]"), ("t2", "[1,2]-[1]"), ("t3", "[1]-[1,2]"),
              ("t4", "[1,3,4]-[a-1,b-2,a-4]"), ("t5", "[2]"), ("t6", "[1,2,3]"), ("t7", "[1,2,3]"),
-             ("t8", "[1,2,3]"), ("t9", "[1,2]")]
+             ("t8", "[1,2,3]"), ("t9", "[1,2]"),
+             ("t10", "[a,b,v,c,d]-[a,b,v,c,d,e]"), ("t11", "[a,b,v,c,d]-[a,b,v,c,d,f]"),
+             ("t12", "[a,b,v,c,d]-[a,b,v,c]"), ("t13", "[a,b,v,c,d]-[z,a,b,v,c,d,y]")]
     return run_cases(LUV_PROGRAM, cases, {"model": viol}, "C09", "logical_update_view")
 
 
